@@ -92,7 +92,40 @@ structure Handle where
   connReq : Option Nat := none   -- stream connect_req (with delayed_error set)
 deriving Repr, Inhabited
 
-inductive ReqKind | work | udpSend (h : Nat) | connect (h : Nat)
+/-- uv_fs_* operations of the simulator (each has an io_uring route, linux.c:829-1145) -/
+inductive FsOp | open | close | read | write | stat
+deriving DecidableEq, Repr, Inhabited
+
+/-- the APIs whose request goes through uv__work_submit (threadpool.c:268-279): uv_queue_work, uv_fs_* (POST,
+    fs.c:139-155; `nbufs` of read/write), uv_getaddrinfo (getaddrinfo.c:140-225), uv_getnameinfo, uv_random -/
+inductive Api | queueWork | fs (op : FsOp) (nbufs : Nat) | getaddrinfo | getnameinfo | random
+deriving DecidableEq, Repr, Inhabited
+
+/-- environment of the simulator: only the work_cb of uv_queue_work blocks until poll time; every other
+    kind of work finishes as soon as the (single) worker thread reaches it -/
+def Api.gated : Api → Bool
+  | .queueWork => true
+  | _ => false
+/-- UV__WORK_SLOW_IO (separate queue in threadpool.c:57-140) -/
+def Api.slow : Api → Bool
+  | .getaddrinfo | .getnameinfo => true
+  | _ => false
+/-- tag printed with the completion callback -/
+def Api.code : Api → Int
+  | .queueWork => 0 | .fs _ _ => 1 | .getaddrinfo => 2 | .getnameinfo => 3 | .random => 4
+
+/-- `work api`: in the thread pool / loop->wq; `ring api`: an fs request in the io_uring submission ring -/
+inductive ReqKind | work (api : Api) | ring (api : Api) | udpSend (h : Nat) | connect (h : Nat)
+deriving DecidableEq, Repr, Inhabited
+def ReqKind.cancellable : ReqKind → Bool
+  | .work _ | .ring _ => true
+  | _ => false
+def ReqKind.api : ReqKind → Api
+  | .work a | .ring a => a
+  | _ => .queueWork
+
+/-- `iou->ringfd`: -2 uninitialised, -1 failed, else a ring (linux.c:766-782) -/
+inductive Ring | uninit | failed | ok
 deriving DecidableEq, Repr, Inhabited
 structure Req where
   id : Nat
@@ -103,7 +136,8 @@ deriving DecidableEq, Repr, Inhabited
 inductive W | async | signal | inotify | h (id : Nat)
 deriving DecidableEq, Repr, Inhabited
 
-inductive Owner | async | h (id : Nat) | inotify | signal | other
+/-- `ring cq`: the io_uring ring fd; `cq` = the completion queue entries [head, tail) found by uv__poll_io_uring (input) -/
+inductive Owner | async | h (id : Nat) | inotify | signal | other | ring (cq : List Nat)
 deriving DecidableEq, Repr, Inhabited
 
 def POLLIN : Nat := 1
@@ -138,7 +172,8 @@ inductive Op
   | asyncSend (h : Nat)
   | bind (h : Nat)
   | udpSend (h : Nat)                  -- the new request gets the next id
-  | work
+  | work (api : Api)                   -- uv_queue_work / uv_fs_* / uv_getaddrinfo / uv_getnameinfo / uv_random with a callback
+  | useIoUring                         -- uv_loop_configure(loop, UV_LOOP_USE_IO_URING_SQPOLL)
   | workNull                           -- uv_queue_work without work_cb: UV_EINVAL, nothing registered
   | udpSendBad (h : Nat)               -- uv_udp_send without destination: UV_EDESTADDRREQ, nothing registered
   | reject (api : Nat)                 -- getaddrinfo / getnameinfo / random refused synchronously: UV_EINVAL
@@ -217,7 +252,11 @@ structure State where
   poolQ : List Nat := []              -- thread pool queue (pool size 1)
   running : Option Nat := none        -- work item the worker has dequeued
   doneQ : List (Nat × Bool) := []     -- loop->wq: (request, cancelled)
-  doneLocal : List (Nat × Bool) := [] -- `wq` of uv__work_done
+  doneLocal : List (Nat × Bool) := [] -- `wq` of uv__work_done / the CQ entries uv__poll_io_uring walks
+  iouFlag : Bool := false             -- loop->flags & UV_LOOP_ENABLE_IO_URING_SQPOLL
+  ringEnv : Bool := true              -- environment: UV_USE_IO_URING > 0, kernel new enough, io_uring_setup succeeds
+  ring : Ring := .uninit              -- iou->ringfd
+  ringQ : List Nat := []              -- requests in flight in the ring (iou->in_flight of them)
   oracle : List PollRes := []         -- future epoll_pwait results (inputs)
   closed : Bool := false              -- uv_loop_close succeeded
   halted : Bool := false              -- the environment reported a deadlock / ran out of inputs
@@ -527,12 +566,41 @@ def initLoop (clock0 : Nat) (metrics : Bool) (oracle : List PollRes) : State :=
   withKernel s 1 setInternal
 
 /-! ### thread pool (pool size 1; completions arrive as inputs at poll time) -/
-def workSubmit (s : State) : State :=
+/-- uv__req_register / uv__req_init + uv__work_submit.  An idle worker takes the item at once; work that is
+    not gated (see `Api.gated`) is finished by it at once: loop->wq, uv_async_send (threadpool.c:118-124) -/
+def workSubmit (s : State) (api : Api) : State :=
   let r := s.nextReq
-  let s := { s with ar := reqRegister s.ar, reqs := s.reqs ++ [({ id := r, kind := .work } : Req)], nextReq := r + 1 }
+  let s := { s with ar := reqRegister s.ar, reqs := s.reqs ++ [({ id := r, kind := .work api } : Req)], nextReq := r + 1 }
   match s.running with
-  | none => { s with running := some r }
+  | none =>
+    if api.gated then { s with running := some r }
+    else asyncSend { s with doneQ := s.doneQ ++ [(r, false)] } 1
   | some _ => { s with poolQ := s.poolQ ++ [r] }
+
+/-- does the call try the io_uring route before POST?  (fs.c:1831-2245: every simulated fs op does;
+    uv__iou_fs_read_or_write, linux.c:1047-1062: a write with more than IOV_MAX = 1024 buffers returns 0
+    *before* uv__iou_get_sqe, a read is capped) -/
+def ringable : Api → Bool
+  | .fs .write n => n ≤ 1024
+  | .fs _ _ => true
+  | _ => false
+
+/-- uv__iou_get_sqe, first half (linux.c:766-782): the ring is created lazily, once -/
+def ringInit (s : State) : State :=
+  if s.ring == .uninit then { s with ring := if s.iouFlag && s.ringEnv then .ok else .failed } else s
+
+/-- uv__iou_get_sqe, second half (linux.c:796-806) + uv__iou_submit: uv__req_register, in_flight++ -/
+def ringSubmit (s : State) (api : Api) : State :=
+  let r := s.nextReq
+  { s with ar := reqRegister s.ar, reqs := s.reqs ++ [({ id := r, kind := .ring api } : Req)], nextReq := r + 1,
+           ringQ := s.ringQ ++ [r] }
+
+/-- an asynchronous uv_fs_* / uv_getaddrinfo / uv_getnameinfo / uv_random / uv_queue_work call that is accepted -/
+def submit (s : State) (api : Api) : State :=
+  if ringable api then
+    let s := ringInit s
+    if s.ring == .ok then ringSubmit s api else workSubmit s api
+  else workSubmit s api
 
 /-- uv__work_cancel (threadpool.c:283-308) -/
 def workCancel (s : State) (r : Nat) : State × Int :=
@@ -650,7 +718,11 @@ def applyOp (s : State) (o : Op) : State × Ret :=
     match getHF s id with
     | some (h, f) => if h.kind == .udp && !hClosing f then ok (udpSend s id) else illegal s
     | none => illegal s
-  | .work => ok (workSubmit s)
+  | .work api =>
+    -- slow I/O (getaddrinfo / getnameinfo) is submitted to an idle pool only (Legal): the separate slow-I/O
+    -- queue of threadpool.c is not part of this model
+    if api.slow && !(s.running.isNone && s.poolQ.isEmpty) then illegal s else ok (submit s api)
+  | .useIoUring => ok { s with iouFlag := true }
   | .workNull => ok s (-22)
   | .reject api => if api < 3 then ok s (-22) else illegal s
   | .connectBad id =>
@@ -664,7 +736,9 @@ def applyOp (s : State) (o : Op) : State × Ret :=
     | some (h, f) => if h.kind == .udp && !hClosing f then ok s (-89) else illegal s
     | none => illegal s
   | .cancel r =>
-    if s.reqs.contains ({ id := r, kind := .work } : Req) then let (s, rc) := workCancel s r; ok s rc else illegal s
+    -- uv_cancel (threadpool.c:389-419): UV_FS / UV_GETADDRINFO / UV_GETNAMEINFO / UV_RANDOM / UV_WORK all reach
+    -- uv__work_cancel; a request in the ring has an empty `wq` link (uv__iou_get_sqe "pacify uv_cancel"): UV_EBUSY
+    if s.reqs.any (fun q => q.id == r && q.kind.cancellable) then let (s, rc) := workCancel s r; ok s rc else illegal s
   | .stopLoop => ok { s with stop := true }
   | .updateTime => ok (updateTime s)
   | .advance n => ok { s with clock := s.clock + n }
